@@ -43,22 +43,29 @@ COMPONENTS = {
              "recorder task that crashes mid-write (torn tail)"],
 }
 ASSUMPTIONS = [
-    "a listing row is an output line that splits on box-drawing column separators into exactly seven integer cells (or "
-    "seven '...' cells for the ellipsis row)",
+    "a listing row is an output line that splits on column separators into >= 7 cells that are all integers (the seven "
+    "header values must appear in it in order; further integer columns such as a row number are tolerated) or all "
+    "ellipses; ANSI sequences are stripped and the rendering environment is pinned (COLUMNS=200, NO_COLOR)",
     "the XTCE definition given to 'parse' is the seven CCSDS header fields (committed as models/header_only.xml); every "
     "packet carries a unique SRC_SEQ_CTR (except in the repeated-packet files, where some or all packets are byte-identical "
     "and rows are attributable by position only) so 'shows that packet' means exactly that counter and no other appears",
-    "negative packet indices and files over 60 packets are not generated",
+    "a negative index within -n..-1 may either count from the end or be answered as out of range; below -n it must be "
+    "answered as out of range; files hold up to 1100 packets",
+    "the exit status is judged only for listings and valid indices (must be 0); the out-of-range answer may use any exit "
+    "status and either output stream, but never a traceback",
     "torn files: the listing must equal the reference framing of the bytes present; termination and absence of a "
     "traceback are required on every file",
     "if cli.py stops using the builtin open() the simulated disk is bypassed (probe sim_disk_used drops to 0) and the real "
     "temp file with identical content is read instead; the row oracle is unaffected",
 ]
 EXPECTED_PROBES = ("sim_disk_used", "n_eq_0", "n_eq_10", "n_eq_11", "index_eq_n", "index_gt_n", "index_last", "torn_tail",
-                   "short_raw_read", "listing_elided", "listing_full", "repeated_packet", "garbage_tail", "huge_packet")
+                   "short_raw_read", "listing_elided", "listing_full", "repeated_packet", "garbage_tail", "huge_packet", "index_negative_beyond", "index_negative_inside")
 
 XTCE_PATH = os.path.join(os.path.dirname(os.path.dirname(os.path.abspath(__file__))), "models", "header_only.xml")
 
+os.environ.update(COLUMNS="200", LINES="60", NO_COLOR="1", TERM="dumb")
+for _v in ("FORCE_COLOR", "CLICOLOR_FORCE", "JUPYTER_COLUMNS", "JUPYTER_LINES"):
+    os.environ.pop(_v, None)
 _packets = factory.import_library()
 from click.testing import CliRunner  # noqa: E402
 from space_packet_parser import cli as _cli  # noqa: E402
@@ -79,20 +86,35 @@ def systematic():
     return out
 
 
+_ANSI = re.compile(r"\x1b\[[0-9;?]*[A-Za-z]")
+
+
 def parse_rows(text):
+    """Data rows of the listing: table lines whose cells are all integers (>= 7 of them: the seven header fields, in
+    order, possibly among further integer columns such as a row number) or all ellipses."""
     rows = []
-    for line in text.splitlines():
+    for line in _ANSI.sub("", text).splitlines():
         if not _SEP.search(line):
             continue
         cells = [c.strip() for c in _SEP.split(line)]
         cells = [c for c in cells if c != ""]
-        if len(cells) != 7:
+        if len(cells) < 7:
             continue
-        if all(c == "..." or c == "…" for c in cells):
+        if all(c in ("...", "…") for c in cells):
             rows.append("...")
         elif all(re.fullmatch(r"-?\d+", c) for c in cells):
             rows.append(tuple(int(c) for c in cells))
     return rows
+
+
+def row_matches(row, expected):
+    """``expected`` (seven header values, or '...') appears in ``row``: equal, or an in-order subsequence of a wider row."""
+    if expected == "..." or row == "...":
+        return row == expected
+    if len(row) == len(expected):
+        return tuple(row) == tuple(expected)
+    it = iter(row)
+    return all(any(x == c for c in it) for x in expected)
 
 
 def run(ch, render=False):
@@ -111,10 +133,12 @@ def run(ch, render=False):
         repeat = "unique"
         huge = False
     else:
-        n = ch.weighted([(10, None), (1, 20), (1, 60)], "n_kind")
+        n = ch.weighted([(20, None), (2, 20), (2, 60), (1, 300), (1, 1100)], "n_kind")
         n = ch.draw(N_SWEEP + 1, "n") if n is None else 11 + ch.draw(n - 10, "n_big")
         cmd = ch.weighted([(3, "describe"), (4, "parse"), (1, "parse_all")], "cmd")
         index = ch.draw(n + 2, "index") if cmd == "parse" else None
+        if index is not None and ch.chance(1, 6, "neg_index"):
+            index = -1 - ch.draw(n + 3, "neg")           # -1 .. -(n+3): inside and beyond the Python range
         k = ch.weighted([(5, 0), (1, 4), (1, 1), (1, 7)], "k") if cmd != "describe" else 0
         torn = ch.chance(1, 3, "torn")
         bufsize = ch.pick((8192, 1, 7, 16, 4096, 100), "bufsize")
@@ -180,7 +204,9 @@ def run(ch, render=False):
         w.probe("n_eq_10")
     if m == 11:
         w.probe("n_eq_11")
-    if index is not None:
+    if index is not None and index < 0:
+        w.probe("index_negative_beyond" if index < -m else "index_negative_inside")
+    elif index is not None:
         if index == m:
             w.probe("index_eq_n")
         elif index > m:
@@ -252,10 +278,17 @@ def run(ch, render=False):
         except Exception:
             text = result.output
         exc = result.exception
+        try:
+            text_all = result.output          # stdout and stderr: an error message may legitimately go to stderr
+        except Exception:
+            text_all = text
+        oor_case = index is not None and (index >= m or index < -m)
         if exc is not None and not isinstance(exc, SystemExit):
             out.fail("traceback", f"command ended in {type(exc).__name__}: {exc} ({desc})", f"{cmd}|traceback|{type(exc).__name__}")
-        elif result.exit_code != 0:
-            out.fail("nonzero_exit", f"exit code {result.exit_code}; output tail: {text[-200:]!r} ({desc})", f"{cmd}|exit")
+        elif result.exit_code != 0 and not oor_case:
+            # the statement fixes no exit status for the out-of-range answer; a listing or a valid index that ends with a
+            # failure status has not "shown" anything reliably
+            out.fail("nonzero_exit", f"exit code {result.exit_code}; output tail: {text_all[-200:]!r} ({desc})", f"{cmd}|exit")
         elif cmd == "describe":
             rows = parse_rows(text)
             hdrs = [factory.header_tuple(p) for p in exp_pkts]
@@ -265,9 +298,9 @@ def run(ch, render=False):
             else:
                 exp_rows = hdrs[:5] + ["..."] + hdrs[-5:]
                 w.probe("listing_elided")
-            if rows != exp_rows:
+            if len(rows) != len(exp_rows) or not all(row_matches(r, e) for r, e in zip(rows, exp_rows)):
                 i = 0
-                while i < len(rows) and i < len(exp_rows) and rows[i] == exp_rows[i]:
+                while i < len(rows) and i < len(exp_rows) and row_matches(rows[i], exp_rows[i]):
                     i += 1
                 got_i = rows[i] if i < len(rows) else "(nothing)"
                 exp_i = exp_rows[i] if i < len(exp_rows) else "(nothing)"
@@ -276,6 +309,7 @@ def run(ch, render=False):
                 out.fail(kind, f"listing has {len(rows)} rows, expected {len(exp_rows)}; first difference at row {i}: got "
                                f"{got_i}, expected {exp_i} ({desc})", f"describe|{kind}")
         else:
+            text = _ANSI.sub("", text)
             ctrs = [int(x) for x in _CTR.findall(text)]
             exp_ctrs = [factory.header_tuple(p)[5] for p in exp_pkts]
             if index is None:
@@ -284,7 +318,13 @@ def run(ch, render=False):
                 if ctrs != shown:
                     out.fail("wrong_packets_shown", f"parse without an index printed counters {ctrs[:25]}, expected "
                                                     f"{shown[:25]} ({desc})", "parse_all|wrong")
-            elif index < m:
+            elif -m <= index < 0:
+                # a negative index inside the Python range: the statement does not say whether it counts from the end or
+                # is out of range; either answer is accepted (no traceback was already required above)
+                if ctrs not in ([], [exp_ctrs[index]]):
+                    out.fail("wrong_packet_shown", f"--packet {index} printed packets with counters {ctrs[:12]}; expected "
+                                                   f"[{exp_ctrs[index]}] or an out-of-range message ({desc})", "parse|wrong_packet_neg")
+            elif 0 <= index < m:
                 if ctrs != [exp_ctrs[index]]:
                     out.fail("wrong_packet_shown", f"--packet {index} printed packets with counters {ctrs[:12]}, expected "
                                                    f"exactly [{exp_ctrs[index]}] ({desc})", "parse|wrong_packet")
@@ -297,9 +337,9 @@ def run(ch, render=False):
                 if ctrs:
                     out.fail("packet_shown_for_bad_index", f"--packet {index} with {m} packets printed counters {ctrs[:12]} "
                                                            f"({desc})", "parse|shown_for_bad_index")
-                elif not _OOR.search(text):
+                elif not _OOR.search(text_all):
                     out.fail("no_out_of_range_message", f"--packet {index} with {m} packets printed no out-of-range "
-                                                        f"message: {text[-160:]!r} ({desc})", "parse|no_message")
+                                                        f"message: {text_all[-160:]!r} ({desc})", "parse|no_message")
 
     out.log = w.log
     out.faults = w.faults
